@@ -468,6 +468,7 @@ fn fixed_systems() -> Vec<(ModelSpec, StateSpec)> {
         f_eta,
         x,
         lambda: 1.7,
+        no_t_floor: false,
     };
     let gc = |name: &str| -> Value {
         POOLS
